@@ -310,6 +310,10 @@ def build_detector(d):
              "weight": xr.DataArray([14.0 + i for i in range(nref)], dims="ref"),
              "flux": xr.DataArray([[0.1 * (i + 1) + 0.01 * w for w in range(3)] for i in range(nref)], dims=["ref", "wavelength"])},
             coords={"ref": list(range(nref)), "wavelength": [336.0, 338.0, 1018.0]})
+        if c.get("scene_attrs", True):
+            # `add_source` does not constrain the attributes of a source: numbers, booleans, lists and text
+            src.attrs = {"right_ascension": 56.75 + k, "declination": -24.5, "fov_radius": 0.5, "n_stars": 3 + k,
+                         "checked": True, "bands": [1, 2], "label": f"source {k}"}
         det.scene.add_source(src)
     for node in c.get("data") or []:
         kind = node.get("kind", "array")
@@ -817,6 +821,7 @@ def gen_detector(rng, kind=None):
         geometry[rng.choice(["pixel_vert_size", "pixel_horz_size"])] = rng.choice([0.0, None])
     if rng.random() < 0.4:
         c["scene"] = rng.choice([1, 2])
+        c["scene_attrs"] = rng.random() < 0.7
     if rng.random() < 0.4:
         c["data"] = gen_data_nodes(rng)
     return {"type": kind, "rows": rows, "cols": cols, "geometry": geometry, "environment": environment, "characteristics": ch,
